@@ -14,6 +14,22 @@ def get(name: str):
     if name == "closed":
         c = astropy.cosmology.LambdaCDM(H0=65, Om0=0.4, Ode0=0.9)
         return c, c
+    if name == "custom2":
+        from yaw.cosmology import CustomCosmology
+
+        class OtherScaledCosmology(CustomCosmology):
+            """another user-defined model: same class hierarchy, other distances"""
+
+            def to_format(self, format="mapping"):
+                return "scaled2"
+
+            def comoving_distance(self, z):
+                return astropy.cosmology.Planck15.comoving_distance(z) * 0.8
+
+            def angular_diameter_distance(self, z):
+                return astropy.cosmology.Planck15.angular_diameter_distance(z) * 1.3
+        c = OtherScaledCosmology()
+        return c, c
     if name == "custom":
         from yaw.cosmology import CustomCosmology
 
